@@ -29,6 +29,7 @@ def sh(cmd, cwd=None, env=None, timeout=3000):
 def main():
     prop, wt, name = sys.argv[1], sys.argv[2], sys.argv[3]
     demos, feats, miri = [], [], False
+    release, examples = False, []
     a = sys.argv[4:]
     i = 0
     while i < len(a):
@@ -38,6 +39,10 @@ def main():
             feats = a[i + 1].split(); i += 1
         elif a[i] == "--miri":
             miri = True
+        elif a[i] == "--release":
+            release = True
+        elif a[i] == "--demo-example":
+            examples.append(a[i + 1]); i += 1
         i += 1
     seed = os.path.join(wt, "_seed")
     patch = os.path.join(seed, "patch.diff")
@@ -64,7 +69,7 @@ def main():
             shutil.copy2(os.path.join(seed, "demo", d), os.path.join(S, "tests", os.path.basename(d)))
         for d in demos:
             tname = os.path.basename(d)[:-3]
-            cmd = (["cargo", "+nightly", "miri", "test"] if miri else tool + ["test", "--offline"]) + feats + ["--test", tname]
+            cmd = (["cargo", "+nightly", "miri", "test"] if miri else tool + ["test", "--offline"]) + feats + (["--release"] if release else []) + ["--test", tname]
             rc1, o1 = sh(cmd, cwd=S, env={"CARGO_TARGET_DIR": tgt})
             sh(["git", "apply", "-R", patch], cwd=S)
             rc2, o2 = sh(cmd, cwd=S, env={"CARGO_TARGET_DIR": tgt})
@@ -74,6 +79,23 @@ def main():
             print(ran[-1])
             if rc1 == 0 or rc2 != 0:
                 print((o1 if rc1 == 0 else o2)[-2500:])
+        # client programs that must not type-check against the unchanged crate (type-system properties)
+        if examples:
+            os.makedirs(os.path.join(S, "examples"), exist_ok=True)
+        for d in examples:
+            shutil.copy2(os.path.join(seed, "demo", d), os.path.join(S, "examples", os.path.basename(d)))
+            ename = os.path.basename(d)[:-3]
+            cmd = tool + ["build", "--offline"] + feats + ["--example", ename]
+            rc1, o1 = sh(cmd, cwd=S, env={"CARGO_TARGET_DIR": tgt})
+            sh(["git", "apply", "-R", patch], cwd=S)
+            rc2, o2 = sh(cmd, cwd=S, env={"CARGO_TARGET_DIR": tgt})
+            sh(["git", "apply", patch], cwd=S)
+            demo_results[ename] = {"with_patch": "compiles" if rc1 == 0 else "rejected", "without_patch": "compiles" if rc2 == 0 else "rejected", "errors_without_patch": [l for l in o2.splitlines() if l.startswith("error[")][:4]}
+            ran.append("%s: with patch %s, without %s %s" % (" ".join(cmd), demo_results[ename]["with_patch"], demo_results[ename]["without_patch"], demo_results[ename]["errors_without_patch"]))
+            print(ran[-1])
+            os.remove(os.path.join(S, "examples", os.path.basename(d)))
+        if examples:
+            shutil.rmtree(os.path.join(S, "examples"), ignore_errors=True)
         for d in demos:
             os.remove(os.path.join(S, "tests", os.path.basename(d)))
         if not os.listdir(os.path.join(S, "tests")):
